@@ -431,6 +431,9 @@ func (r *Runner) allSameFileSize() bool {
 }
 
 func (r *Runner) doRestart(op *Op) {
+	if r.Cnt["bulk_loads"] > 0 && op.Cfg != nil && op.Cfg.IO == 1 && op.Cfg.FileSize < 2048 {
+		op.Cfg.FileSize = 2048 // hundreds of one-record mapped files make a run take minutes (see the bulk load)
+	}
 	pre, f := dumpDB(r.DB, r.Ever)
 	old := r.judging
 	if f != "" || diffState(pre, r.M) != "" {
